@@ -764,6 +764,12 @@ func (w *_assembler) BeginList(sizeHint int64) (datamodel.ListAssembler, error) 
 		// we should be able to safely assume we're dealing with a Go slice here,
 		// so _listAssembler can append to that
 		val := w.createNonPtrVal()
+		if val.IsNil() {
+			// A list that has been begun exists, even if it stays empty:
+			// a nil slice is how an absent (optional) or null (nullable) list is held,
+			// so the empty list must not be left looking like one. (BeginMap does the same with MakeMap.)
+			val.Set(reflect.MakeSlice(val.Type(), 0, 0))
+		}
 		return &_listAssembler{
 			cfg:        w.cfg,
 			schemaType: typ,
